@@ -546,6 +546,7 @@ func isSubmatchCallee(name string) bool {
 // applied to (capture 2, 100, 'D', 'M'), (capture 3, 10, 'L', 'C'), (capture 4, 1, 'V', 'X') — each once, in any
 // order of summation, whether the loop is written over the table, unrolled or moved into a helper.
 func ruleRomanSum(e *Env, rule string) {
+	e.skeleton(rule, "roman", "pattern", "^<1><2><3><4>$")
 	dp := e.Fn(rule, "roman", "DefaultParser")
 	if dp == nil {
 		return
